@@ -539,7 +539,9 @@ def gen_datum(rng):
     if r < 0.55:
         return "int", gen_pint(rng)
     if r < 0.65:
-        return "bytes", rb(rng, rng.choice([0, 1, 32, 64]))
+        # plain bytes of every length (a datum is whatever the caller hands over): past the 64-byte chunk size of typed
+        # Plutus data too — the hash must still be taken over exactly the bytes that are shipped
+        return "bytes", rb(rng, rng.choice([0, 1, 32, 63, 64, 65, 66, 100, 127, 128, 129, 192, 200, 256, 300]))
     if r < 0.72:
         return "indefinite-list", IndefiniteList([gen_pint(rng) for _ in range(rng.randint(1, 4))])
     if r < 0.8:
